@@ -59,7 +59,7 @@ Lemma step2_inv : forall (r : req) (code : Z) url h2 au ap r',
       match copy h4 with
       | (RUnit, h5) =>
           FRedirect (mkReq url m b h5 au ap (Some (maxred_of r - 1)%Z) (r_follow r) (r_ua r))
-      | _ => FRaise
+      | _ => FStuck
       end
   | _ => FRaise
   end = FRedirect r' ->
